@@ -1,9 +1,9 @@
 (** C11 - whitespace and redundant parentheses never change the parse.
     Whitespace: a theorem for every input and every sane operator table (Lemmas/LexerWs.v): changing the gaps between tokens
-    leaves the token stream, hence the parse, unchanged. Parentheses: transparency of one level proved here for every context
-    (C11_parens_transparent), minimal-parenthesis renderings by C02_round_trip; arbitrary redundant nesting inside a larger
-    program is carried by the correspondence. *)
-From EE Require Import Chars OpTable Decimal Token Lexer Ast Parser Api Utf8 LexerSpec LexerTiling LexerWs ParserSteps ImplTable.
+    leaves the token stream, hence the parse, unchanged. Parentheses: a theorem for every tree and table (Lemmas/PrattParen.v):
+    a rendering with the parentheses the grammar needs and ANY further parentheses around ANY subexpressions parses to the
+    tree with the parentheses forgotten. *)
+From EE Require Import Chars OpTable Decimal Token Lexer Ast Parser Api Utf8 LexerSpec LexerTiling LexerWs ParserSteps Etoks PrattFull PrattParen ImplTable Names.
 Open Scope N_scope.
 
 (* tokens are separated by whitespace only, so what lies between two tokens carries no information: the tiling theorem *)
@@ -106,3 +106,27 @@ Proof.
   apply Adj_nil; reflexivity.
 Qed.
 Print Assumptions C11_whitespace_example.
+
+(* REDUNDANT PARENTHESES NEVER CHANGE THE PARSE. [ptree]: syntax trees with explicit parenthesis nodes; [toks] writes one down,
+   [strip] forgets the parentheses; [wfp] demands only the parentheses the grammar needs and allows any others, around any
+   subexpression, nested to any depth. For every table with `?`/`:` unregistered and every such rendering within the depth limit
+   the parser returns the stripped tree. So any two renderings of the same tree parse alike, whatever their redundant parentheses. *)
+Theorem C11_redundant_parens : forall tbl p, tbl_ok tbl -> wfp tbl p = true -> phgt p -> proom 0 p ->
+  parse_tokens tbl TmEof (toks p) = Ok (strip p).
+Proof. intros tbl p T. exact (parse_toks tbl T p). Qed.
+Print Assumptions C11_redundant_parens.
+
+Theorem C11_extra_parens_same_parse : forall tbl p, tbl_ok tbl -> wfp tbl p = true -> phgt p -> proom 0 (PParen p) ->
+  parse_tokens tbl TmEof (toks (PParen p)) = parse_tokens tbl TmEof (toks p).
+Proof. intros tbl p T. exact (extra_parens_same_parse tbl T p). Qed.
+Print Assumptions C11_extra_parens_same_parse.
+
+(* non-vacuity: ((a)) + ((b * (c))) and a + b * c, over the built-in table *)
+Example C11_redundant_parens_example :
+  let a := PRef [97] in let b := PRef [98] in let c := PRef [99] in
+  let p1 := PBin false n_add (PParen (PParen a)) (PParen (PParen (PBin false n_mul b (PParen c)))) in
+  let p2 := PBin false n_add a (PBin false n_mul b c) in
+  wfp builtin_table p1 = true /\ wfp builtin_table p2 = true /\ strip p1 = strip p2 /\ pneed p1 = 6 /\
+  length (toks p1) = 15%nat /\ parse_tokens builtin_table TmEof (toks p1) = Ok (strip p2).
+Proof. vm_compute. repeat split. Qed.
+Print Assumptions C11_redundant_parens_example.
